@@ -177,6 +177,15 @@ def run(ctx, rep):
     esc = any(t is gd.excexit for n in gd.live for t, l in n.succ if l == "exc")
     rep.ob("R10.3", "BaseNetref.__del__: failures are swallowed (the connection may be closed)", not esc,
            "no exception can leave the finalizer" if not esc else "an exception can escape the finalizer", dl.loc)
+    # the notice is sent whenever the finalizer runs: no test decides whether the owner is told (CPython clears weak references
+    # before it finalizes objects reclaimed by the cycle collector, so "am I still the cached proxy" is false exactly then)
+    send_nodes = {n.id for n in gd.live if n.ast is not None and n.kind in ("stmt", "test") and any(
+        (A.call_name(c) or "").endswith("asyncreq") or (A.call_name(c) or "").endswith("syncreq") for c in A.calls(n.ast))}
+    skip = Q.find_path_ef([gd.entry], lambda x: x is gd.exit, lambda a, b, l: l != "exc" and b.id not in send_nodes) if send_nodes else None
+    rep.ob("R10.3", "BaseNetref.__del__: the release notice is sent on every path through the finalizer", bool(send_nodes) and skip is None,
+           "unconditional" if send_nodes and skip is None else
+           "the finalizer can finish without telling the owner: every reference this proxy stood for stays counted at the owner "
+           "until the connection closes", dl.loc, witness=ctx.path(skip) if skip else None)
     fh = ctx.func(K.CONN + "._handle_del")
     hp = A.params(fh.node)
     dec = A.find_calls(fh.node, "self._local_objects.decref")
@@ -313,6 +322,20 @@ def run(ctx, rep):
     H.who_may_touch(ctx, rep, "R10.9", K.CONN, "_proxy_cache", {"__init__", "_cleanup", "_unbox"},
                     "a cached proxy returned from anywhere but _unbox's own cache branch is treated as new there and its count is not "
                     "incremented: the owner has counted two references, the peer releases one")
+    fdr_ = ctx.func(K.CONN + "._dispatch_request")
+    gdr_ = ctx.cfg(fdr_)
+    box_nodes = [n for n in gdr_.live if n.ast is not None and n.kind in ("stmt", "test") and A.find_calls(n.ast, "self._box")]
+    multi = [n for n in box_nodes if len(A.find_calls(n.ast, "self._box")) > 1]
+    ids_b = {n.id for n in box_nodes}
+    cnt_b = Q.count_on_paths(gdr_, gdr_.entry, lambda n: n.id in ids_b, cap=3)
+    at_exit = cnt_b.get(gdr_.exit.id, frozenset())
+    rep.floor("R10.1", "boxing sites of the handler result in _dispatch_request", len(box_nodes), 1)
+    okb1 = not multi and at_exit <= frozenset([0, 1])
+    rep.ob("R10.1", "_dispatch_request: the handler's result is boxed at most once per request (every boxing counts a reference "
+           "at the owner)", okb1, "one self._box(...) on the replying path" if okb1 else
+           "a path through _dispatch_request boxes the result %s times: a by-reference result is counted more often at the owner "
+           "than the single proxy the peer builds will ever return - the object stays exported until the connection closes"
+           % (sorted(at_exit) if not multi else "several"), ctx.loc(multi[0].ast) if multi else fdr_.loc)
     rep.rule("R10.10", "nothing that outlives the send keeps the request's operands alive (a dying proxy is not resurrected by its "
                        "own release notice)")
     rep.rule("R10.11", "the value a handler returned stays bound to a local until the reply is handed to the send layer (a proxy "
